@@ -165,7 +165,7 @@ theorem C06_backends_equiv (d : Bytes) (wal : Bytes) (cs : List DCall) (h : wfCa
   refine ⟨_, f, x, hm, hf1, hx1, rfl, hf2, hx2, by rw [← hx3, hx2], ?_⟩
   intro pos n hn
   simp only at hf2 hx2
-  refine ⟨by simp [MemSt.read, hn], by simp only [FileSt.read, hf2]; split <;> simp_all [readAt], by simp [MapSt.read, MemSt.read, hx2, hn]⟩
+  refine ⟨by simp [MemSt.read, hn], by simp [FileSt.read, hf2, hn], by simp [MapSt.read, MemSt.read, hx2, hn]⟩
 
 /-- Outside the hypothesis the back-ends really differ (so the hypothesis is not decoration): an
 empty write past the end grows the in-memory buffer but leaves the file alone. -/
